@@ -12,7 +12,8 @@ LEVEL_TEXT = ("one struct reachable from the interface is changed (member insert
               "construction: another name or a non-matching name_regexp, an invalid regular expression, a type_kind other than struct, "
               "source_location_not_in naming the header that defines the struct, accessed_through = reference (C has none), a "
               "has_data_member_inserted_* constraint combined with a removal, or an insertion range that excludes the inserted member's "
-              "offset as measured by a compiler probe, or 'inserted at end' while the member lands at or before the old last member.  The change must still be reported (bit 4, struct named).  Cases where the "
+              "offset as measured by a compiler probe, or a section naming another struct that changed as well (one the changed struct "
+              "points to), or 'inserted at end' while the member lands at or before the old last member.  The change must still be reported (bit 4, struct named).  Cases where the "
               "model says 'may be suppressed' are not judged.")
 LEVEL_NOTE = "only the 'must still be reported' direction is judged; insertion offsets come from the compiler probe, not from this framework's arithmetic"
 ASSUMPTIONS = [LEVEL_NOTE]
@@ -21,7 +22,7 @@ ASSUMPTIONS = [LEVEL_NOTE]
 # pattern reaches the regular expression engine unchanged
 INVALID_RE = ["(", "a(b", "*x", "+", "a|*", "(?", "(()", "^*", "(*)", "x(y"]
 CLASSES = ["wrong-name", "wrong-regexp", "invalid-regexp", "wrong-kind", "location-excluded", "accessed-through-reference",
-           "insertion-constraint-vs-removal", "insertion-outside-range", "insertion-at-wrong-offset", "insertion-not-at-end"]
+           "insertion-constraint-vs-removal", "insertion-outside-range", "insertion-at-wrong-offset", "insertion-not-at-end", "names-another-changed-struct"]
 
 
 def plan(tier):
@@ -32,6 +33,59 @@ def rule(tier):
     return ("case = one pair (one struct mutation) x one generated [suppress_type] section of one of %d violated-constraint classes; "
             "evaluations = suppressed comparisons judged; non-trivial = baseline (no suppression) reports the struct change; distinct by "
             "digest of sources + section" % len(CLASSES))
+
+
+def pointed_to_structs(rec):
+    near = set()
+    for f in rec.fields:
+        t = f.type
+        while isinstance(t, (progen.Pointer, progen.Typedef, progen.Qualified, progen.Array)):
+            t = t.elem if isinstance(t, progen.Array) else t.to
+        if isinstance(t, progen.Record) and t.name and t.name != rec.name and not t.opaque and t.kind == "struct" \
+                and isinstance(f.type, progen.Pointer):
+            near.add(t.name)
+    return near
+
+
+class _Pair(object):
+    pass
+
+
+def make_near_pair(ctx, rng, d, kinds):
+    """P -> Q with two mutations: one on a struct S (kinds), one on a struct T that S has a pointer member to."""
+    for attempt in range(40):
+        p = progen.generate(rng, wl.gen_opts(rng, ctx.tier, ntypes=rng.randint(8, 16)))
+        cands = {}
+        for t in p.types:
+            if isinstance(t, progen.Record) and t.kind == "struct" and t.name and not t.opaque and p.users_of(t):
+                n = pointed_to_structs(t)
+                if n:
+                    cands[t.name] = n
+        if not cands:
+            continue
+        q1 = e = None
+        for k in range(60):
+            res = mutate.apply_random(mutate.BREAKING, p, rng, kinds)
+            if res and res[1].type_name.split(":", 1)[1] in cands and not res[1].nested:
+                q1, e = res
+                break
+        if q1 is None:
+            continue
+        near = cands[e.type_name.split(":", 1)[1]]
+        for k in range(80):
+            res = mutate.apply_random(mutate.BREAKING, q1, rng, ["insert-member", "append-member", "remove-member", "change-member-type"])
+            if res and res[1].type_name.split(":", 1)[1] in near:
+                pr = _Pair()
+                pr.p, pr.q, pr.expects = p, res[0], [e]
+                pr.cfg = wl.pick_config(rng, kinds=("so", "so", "exec"))
+                try:
+                    pr.a = cc.build(pr.p, os.path.join(d, "a"), **pr.cfg)
+                    pr.b = cc.build(pr.q, os.path.join(d, "b"), **pr.cfg)
+                except cc.CompileError:
+                    return None, "compile-error", None
+                pr.digest = core.digest(progen.source_digest(progen.render(pr.p)), progen.source_digest(progen.render(pr.q)), pr.cfg)
+                return pr, None, res[1].type_name.split(":", 1)[1]
+    return None, "no-struct-pointing-to-another-changed-struct", None
 
 
 def case(ctx, i):
@@ -45,9 +99,15 @@ def case(ctx, i):
         kinds = ["insert-member", "append-member"]
     elif cls == "insertion-not-at-end":
         kinds = ["insert-member"]
+    elif cls == "names-another-changed-struct":
+        kinds = ["append-member", "append-member", "append-member", "insert-member", "remove-member"]
     else:
         kinds = ["insert-member", "append-member", "remove-member", "change-member-type"]
-    pr, why = pairs.make_pair(ctx, rng, d, mutate.BREAKING, kinds=kinds, cfg=wl.pick_config(rng, kinds=("so", "so", "exec")))
+    tname = None
+    if cls == "names-another-changed-struct":
+        pr, why, tname = make_near_pair(ctx, rng, d, kinds)
+    else:
+        pr, why = pairs.make_pair(ctx, rng, d, mutate.BREAKING, kinds=kinds, cfg=wl.pick_config(rng, kinds=("so", "so", "exec")))
     if pr is None:
         return r.skip(why)
     e = pr.expects[0]
@@ -56,7 +116,11 @@ def case(ctx, i):
     if rec is None or rec.kind != "struct":
         return r.skip("not-a-struct")
     lines = ["[suppress_type]"]
-    if cls == "wrong-name":
+    if cls == "names-another-changed-struct":
+        # a second struct T, which the changed struct S points to, changes too; the section names T only: S's own change
+        # (a member of S inserted / removed) is not a change of T and must stay reported
+        lines.append("  name = %s" % tname)
+    elif cls == "wrong-name":
         other = [t.name for t in pr.p.types if isinstance(t, progen.Record) and t.name and t.name != sname]
         lines.append("  name = %s" % (rng.choice(other) if other and rng.random() < 0.5 else sname + "x"))
     elif cls == "wrong-regexp":
